@@ -16,7 +16,7 @@ from simkit import peers, sched
 from simkit.core import RunResult, ddmin_list, short_hash
 
 LEVEL = {"C04": "exploration"}
-TIERS = {"C04": (1500, 160, 40000, 1200)}
+TIERS = {"C04": (2600, 160, 40000, 1200)}
 PROBES = {"C04": ["constructor_args_varied", "nested_param_set", "component_replaced",
                   "unknown_param_rejected", "clone_of_fitted", "not_fitted_calls_checked",
                   "fit_leaves_params_checked", "composite_depth2", "pickle_unfitted",
@@ -216,7 +216,12 @@ def variations(cls, rng):
 def generate(prop, rng, tier):
     from engines.registry import all_estimator_classes
     classes = all_estimator_classes()
-    q, cls, kind = classes[rng.randrange(len(classes))]
+    # (composites have many more configurations worth a scenario than leaf estimators)
+    heavy = {"ColumnEnsembleClassifier": 4, "TransformedTargetForecaster": 2, "EnsembleForecaster": 2,
+             "StackingForecaster": 2, "MultiplexForecaster": 2, "ForecastingGridSearchCV": 2,
+             "ForecastingRandomizedSearchCV": 2, "FeatureUnion": 2, "OnlineEnsembleForecaster": 2}
+    weighted = [c for c in classes for _ in range(heavy.get(c[1].__name__, 1))]
+    q, cls, kind = weighted[rng.randrange(len(weighted))]
     ops = []
     n = rng.randint(3, 8)
     pool = ["get_params", "roundtrip_params", "set_flat", "set_unknown", "clone", "call_unfitted",
@@ -447,6 +452,11 @@ def execute(prop, scen):
                             pname, pobj = part[0], part[1]
                             if not hasattr(pobj, "get_params"):
                                 continue
+                            if pname in deep and deep[pname] is not pobj:
+                                v("nested_param_wrong_value", "get_params()[%r] is not the component "
+                                  "object that was passed (fitted: %s)" % (pname, fitted),
+                                  depth=0, identity=True)
+                                break
                             for sub, val in pobj.get_params(deep=True).items():
                                 key = "%s__%s" % (pname, sub)
                                 if key not in deep:
